@@ -23,7 +23,7 @@ ASSUMPTIONS = [
     'RefName/RemoteName/GitRefName new()/as_str() are identity conversions on str (ref-cast newtypes); String: From/Into are identity',
     'uniqueness of the exported name (two symbols never share a ref name) is a consequence of export->parse round-tripping, not a separate query',
 ]
-BUDGET = {'quick': 200, 'thorough': 2400}
+BUDGET = {'quick': 900, 'thorough': 2400}
 F = 'lib/src/git.rs'
 
 def jobs(tier):
